@@ -147,6 +147,9 @@ type vfE1 struct {
 	// both sides and its SSN / MID cursors (sender and receiver) are set to this value (the
 	// state an association is in after that many messages), e.g. just below the 16/32-bit wrap
 	SeqPreset uint32 `json:"seqpreset,omitempty"`
+	// PollMs[side] > 0: the side's readers poll: arm a read deadline of PollMs, read, and after
+	// a timeout stay idle for PollMs before arming the next one (instead of blocking for ever)
+	PollMs [2]int `json:"pollms,omitempty"`
 }
 
 // vfPresetSeq pre-advances the SSN/MID cursors of every stream the scenario writes on.
@@ -240,6 +243,7 @@ type vfSim struct {
 	lf         logging.LoggerFactory
 	buf        *vfBufLF
 	mu         sync.Mutex
+	stopPoll   bool
 	reads      []vfReadRec
 	writes     []*vfWriteRec
 	calls      []*vfCall
@@ -553,6 +557,7 @@ func (s *vfSim) attach(side int, st *Stream, opened bool) *vfStreamH {
 
 func (s *vfSim) reader(h *vfStreamH) {
 	buf := make([]byte, s.rdBuf)
+	nPolls := 0
 	for {
 		s.mu.Lock()
 		ch := s.pauseCh[h.side]
@@ -560,7 +565,25 @@ func (s *vfSim) reader(h *vfStreamH) {
 		if ch != nil {
 			<-ch
 		}
+		poll := time.Duration(s.sc.PollMs[h.side]) * time.Millisecond
+		if poll > 0 && nPolls > 150 && poll < 2*time.Second {
+			poll = 2 * time.Second // keep long idle phases cheap
+		}
+		if poll > 0 {
+			nPolls++
+			_ = h.s.SetReadDeadline(time.Now().Add(poll))
+		}
 		n, ppi, err := h.s.ReadSCTP(buf)
+		if poll > 0 && errors.Is(err, ErrReadDeadlineExceeded) {
+			s.mu.Lock()
+			stop := s.stopPoll
+			s.mu.Unlock()
+			if stop {
+				return // left without an error or EOF: the oracles see a reader that never finished
+			}
+			time.Sleep(poll)
+			continue
+		}
 		r := vfReadRec{T: s.net.now(), Side: h.side, SID: h.sid, Gen: h.gen, N: n, PPI: uint32(ppi)}
 		if err != nil {
 			r.Err = err.Error()
@@ -824,6 +847,9 @@ func (s *vfSim) schedule(acts []vfAct) {
 }
 
 func (s *vfSim) closeAll() {
+	s.mu.Lock()
+	s.stopPoll = true
+	s.mu.Unlock()
 	for i := 0; i < 2; i++ {
 		s.resume(i)
 	}
